@@ -56,6 +56,12 @@ def _models():
         "VmapMixture (weights are a Lambda)": lambda: fd.VmapMixture(eqx.filter_vmap(fd.Normal)(jnp.array([0.0, 1.5]), jnp.array([1.0, 0.6])), jnp.array([1.0, 3.0])),
         "Transformed(StudentT, Affine)": lambda: fd.Transformed(fd.StudentT(jnp.array([3.0]), jnp.array([0.3]), jnp.array([1.5])), fb.Affine(jnp.array([0.5]), jnp.array([2.0]))),
         "frozen StudentT": lambda: non_trainable(fd.StudentT(jnp.array(3.0), jnp.array(0.3), jnp.array(1.5))),
+        # a frozen SUB-TREE: the wrapper's child is a Module that itself contains wrappers (not wrapper-in-wrapper, not frozen leaves)
+        "Chain with a NonTrainable(Affine) sub-tree": lambda: fb.Chain([NonTrainable(fb.Affine(jnp.array([0.5, -1.0]), jnp.array([2.0, 0.5]))), fb.Loc(jnp.array([0.1, 0.2]))]),
+        "MaskedAutoregressive with a NonTrainable conditioner sub-tree": lambda: eqx.tree_at(
+            lambda m: m.masked_autoregressive_mlp, fb.MaskedAutoregressive(key, transformer=flows._affine_with_min_scale(), dim=2, nn_width=2, nn_depth=1), replace_fn=NonTrainable),
+        "StudentT with a NonTrainable base_dist sub-tree": lambda: eqx.tree_at(lambda d: d.base_dist, fd.StudentT(jnp.array([3.0]), jnp.array([0.3]), jnp.array([1.5])), replace_fn=NonTrainable),
+        "Lambda whose argument is a Module with wrappers": lambda: Lambda(lambda b: b, fb.Affine(jnp.array([0.5]), jnp.array([2.0]))),
     }
     return M
 
@@ -152,22 +158,23 @@ def ob_methods():
     M = _models()
     out = []
     for name in ("Affine", "RQS (Lambda wrappers)", "Chain with frozen Loc", "coupling_flow", "Normal", "StudentT (df is a BijectionReparam)", "VmapMixture (weights are a Lambda)",
-                 "Transformed(StudentT, Affine)", "frozen StudentT"):
+                 "Transformed(StudentT, Affine)", "frozen StudentT", "MaskedAutoregressive with a NonTrainable conditioner sub-tree"):
         m = f64(M[name]())
+        mshape = tuple(unwrap(m).shape)     # attributes of a wrapped sub-tree are only available after unwrap
         leaves, mk, paths = leaves_of(m)
         syms = [symarr(f"p{i}", l.shape) for i, l in enumerate(leaves)]
         ctx = Ctx()
         I = Interp(ctx)
         bad = []
         n = 0
-        if isinstance(m, fd.AbstractDistribution):
-            x = symarr("x", m.shape)
+        if isinstance(unwrap(m), fd.AbstractDistribution):
+            x = symarr("x", mshape)
             key = symarr("k", (2,), z3.IntSort())
-            calls = [("log_prob", lambda d, a: d.log_prob(a), x, jnp.zeros(m.shape)), ("sample", lambda d, a: d.sample(a), key, jr.PRNGKey(0)),
+            calls = [("log_prob", lambda d, a: d.log_prob(a), x, jnp.zeros(mshape)), ("sample", lambda d, a: d.sample(a), key, jr.PRNGKey(0)),
                      ("sample_and_log_prob", lambda d, a: d.sample_and_log_prob(a), key, jr.PRNGKey(0))]
         else:
-            x = symarr("x", m.shape)
-            calls = [(mm, (lambda d, a, mm=mm: getattr(d, mm)(a)), x, jnp.zeros(m.shape)) for mm in ("transform", "inverse", "transform_and_log_det", "inverse_and_log_det")]
+            x = symarr("x", mshape)
+            calls = [(mm, (lambda d, a, mm=mm: getattr(d, mm)(a)), x, jnp.zeros(mshape)) for mm in ("transform", "inverse", "transform_and_log_det", "inverse_and_log_det")]
         from ..bij import eq_goal
         from ..sym import all_ok
         strip = np.vectorize(lambda v: jx.split(v)[0], otypes=[object])
@@ -217,9 +224,9 @@ def replay_methods(name):
     import flowjax.distributions as fd
     from flowjax.wrappers import unwrap
     m = _models()[name]()
-    x = jnp.full(m.shape, 0.37)
+    x = jnp.full(unwrap(m).shape, 0.37)
     k = jr.PRNGKey(3)
-    if isinstance(m, fd.AbstractDistribution):
+    if isinstance(unwrap(m), fd.AbstractDistribution):
         calls = {"log_prob": lambda d: d.log_prob(x), "sample": lambda d: d.sample(k), "sample_and_log_prob": lambda d: d.sample_and_log_prob(k)}
     else:
         calls = {mm: (lambda d, mm=mm: getattr(d, mm)(x)) for mm in ("transform", "inverse", "transform_and_log_det", "inverse_and_log_det")}
@@ -461,7 +468,9 @@ def ob_step():
 
 
 def obligations(tier, seed):
-    names = ["Affine", "RQS (Lambda wrappers)", "BNAF linear (WeightNormalization(Where(BijectionReparam)))", "tuple/list containers", "vmapped Affine", "vmapped RQS", "Chain with frozen Loc", "coupling_flow", "Normal"]
+    names = ["Affine", "RQS (Lambda wrappers)", "BNAF linear (WeightNormalization(Where(BijectionReparam)))", "tuple/list containers", "vmapped Affine", "vmapped RQS", "Chain with frozen Loc", "coupling_flow", "Normal",
+             "Chain with a NonTrainable(Affine) sub-tree", "MaskedAutoregressive with a NonTrainable conditioner sub-tree", "StudentT with a NonTrainable base_dist sub-tree",
+             "Lambda whose argument is a Module with wrappers"]
     tasks = [dict(name="unwrap/" + n, func="c12:ob_unwrap", kwargs=dict(name=n), cost=2) for n in names]
     tasks += [dict(name="vmapped", func="c12:ob_vmapped", kwargs={}, cost=3), dict(name="methods", func="c12:ob_methods", kwargs={}, cost=6),
               dict(name="frozen_grad", func="c12:ob_frozen_grad", kwargs={}, cost=4), dict(name="conditioner", func="c12:ob_conditioner", kwargs={}, cost=2),
